@@ -215,7 +215,8 @@ def sweep(ctx, N):
         if not np.all(err <= bound):
             known = known_region(kname, order, ratio)
             i = int(np.argmax(err / bound))
-            ctx.violation('envelope:log1p:order>=6:ratio>=8' if known else 'envelope:%s:%s' % (kind, kname),
+            # (the recorded finding is an estimate 100-3000 x too small; an estimate of exactly zero next to a visible error is another failure)
+            ctx.violation(('envelope:zero-estimate' if float(est[i]) == 0.0 else 'envelope:log1p:order>=6:ratio>=8') if known else 'envelope:%s:%s' % (kind, kname),
                           '%s of f(z) = %s at z0 = %s (method=%r, path=%r, order=%r, step_ratio=%r): got %r, exact %r, error %.3g but reported error estimate %.3g' % (
                               'Residue' if kind == 'residue' else 'Limit', desc['f'], desc['z0'], method, path, desc['order'], ratio,
                               complex(np.ravel(val)[i]), complex(np.ravel(exact)[i]), float(err[i]), float(est[i])),
@@ -246,6 +247,38 @@ def sweep(ctx, N):
             ctx.violation('envelope:tiny-steps', 'Limit of g(z) * %s at z0 = %r with %r (method=%r, order=%d): got %r with error estimate %r, exact %r (the smallest steps vanish next to z0: the last rows of estimates are NaN)' % (
                 kname, z0, cfg, method, order, v, e, exact), dict(desc, got=v, error_estimate=e, exact=exact))
     ctx.cov['sweep_worst_ratio_to_bound'] = worst
+
+
+def demanding(ctx):
+    """Only when something is broken: the demanding end of the quantifier (spiral path, log1p kernel, order 6..8, ratio 8 / 16), where the true
+    error is far above the rounding floor, so a record whose error estimate is lost (zero) or wrong shows as a failing input.  The recorded
+    finding (estimate 100-3000 x too small there) keeps its own key; an estimate of exactly zero is reported under another."""
+    from numdifftools.limits import Limit
+    for gname, g in (('cos', np.cos), ('exp', np.exp)):
+        for order in (6, 7, 8):
+            for ratio in (8.0, 16.0):
+                for z0 in (0.0, 0.5):
+                    for fo_call in ('__call__', 'limit'):
+                        def f(z, g=g, z0=z0):
+                            w = z - z0
+                            return g(z) * np.log1p(w) / w
+                        try:
+                            with np.errstate(all='ignore'), warnings.catch_warnings():
+                                warnings.simplefilter('ignore')
+                                L = Limit(f, path='spiral', order=order, step_ratio=ratio, full_output=True)
+                                val, info = L(z0) if fo_call == '__call__' else L.limit(z0)
+                        except Exception:   # noqa
+                            continue
+                        ctx.count(1, ('demanding', fo_call))
+                        exact = complex(g(z0))
+                        err = abs(complex(np.ravel(val)[0]) - exact)
+                        est = float(np.abs(np.ravel(info.error_estimate)[0]))
+                        if not err <= K * est + FLOOR * max(1.0, abs(exact)):
+                            desc = {'f': '%s(z) * log1p(w)/w, w = z - z0' % gname, 'z0': z0, 'path': 'spiral', 'order': order, 'step_ratio': ratio, 'call': 'Limit(f, path="spiral", order=order, step_ratio=ratio, full_output=True)' + ('(z0)' if fo_call == '__call__' else '.limit(z0)'),
+                                    'got': repr(np.ravel(val)[0]), 'exact': repr(exact), 'error': err, 'error_estimate': est}
+                            if ctx.violation('envelope:zero-estimate' if est == 0.0 else 'envelope:log1p:order>=6:ratio>=8',
+                                             'Limit of %s(z) log1p(w)/w at z0 = %r (spiral, order=%d, step_ratio=%r, %s): error %.3g but reported error estimate %.3g' % (gname, z0, order, ratio, fo_call, err, est), desc) and est == 0.0:
+                                return
 
 
 def real_cases(ctx, N):
@@ -485,6 +518,8 @@ def run(ctx):
     ctx.cov['traces_validated_against_impl'] = ncase
     ctx.cov['correspondence_disagreements'] = nbad
     ctx.cov['skipped'] = skipped
+    if ctx.broken:
+        demanding(ctx)
     sweep(ctx, ctx.n(300, 4000) if not ctx.broken else 1200)
     ctx.assumptions += ['PARTIAL: proved = finite entries unchanged (any arithmetic), exactness on polynomial-in-the-step sequences and on poles g/(z - z0)^p with polynomial g (R), sign table, rule, enough steps; '
                         'NOT proved = the error bound for the listed kernels and non-polynomial g, and the complex-valued pipeline (lexicographic percentiles): explored by the sweep against exact values g(z0), '
